@@ -2558,7 +2558,7 @@ impl Block {
             self.hash.to_hex()
         );
 
-        let mut pruned_txs: Vec<Transaction> = iterate!(&self.transactions, 10)
+        let pruned_txs: Vec<Transaction> = iterate!(&self.transactions, 10)
             .map(|tx| {
                 if tx
                     .from
@@ -2569,6 +2569,12 @@ impl Block {
                 {
                     tx.clone()
                 } else {
+                    // a placeholder stands for exactly one omitted transaction. its merkle leaf
+                    // travels in the first half of the signature field, which is where the
+                    // receiving side reads the hash of an SPV transaction from
+                    let leaf_hash = tx.hash_for_signature.unwrap_or([0; 32]);
+                    let mut placeholder_signature = [0; 64];
+                    placeholder_signature[0..32].copy_from_slice(&leaf_hash);
                     Transaction {
                         timestamp: tx.timestamp,
                         from: vec![],
@@ -2576,9 +2582,9 @@ impl Block {
                         data: vec![],
                         transaction_type: TransactionType::SPV,
                         txs_replacements: 1,
-                        signature: tx.signature,
+                        signature: placeholder_signature,
                         path: vec![],
-                        hash_for_signature: tx.hash_for_signature,
+                        hash_for_signature: Some(leaf_hash),
                         total_in: 0,
                         total_out: 0,
                         total_fees: 0,
@@ -2588,27 +2594,6 @@ impl Block {
                 }
             })
             .collect();
-
-        let mut i = 0;
-        while i + 1 < pruned_txs.len() {
-            if pruned_txs[i].transaction_type == TransactionType::SPV
-                && pruned_txs[i + 1].transaction_type == TransactionType::SPV
-                && pruned_txs[i].txs_replacements == pruned_txs[i + 1].txs_replacements
-            {
-                pruned_txs[i].txs_replacements *= 2;
-                let combined_hash = hash(
-                    &[
-                        pruned_txs[i].hash_for_signature.unwrap(),
-                        pruned_txs[i + 1].hash_for_signature.unwrap(),
-                    ]
-                    .concat(),
-                );
-                pruned_txs[i].hash_for_signature = Some(combined_hash);
-                pruned_txs.remove(i + 1);
-            } else {
-                i += 2;
-            }
-        }
 
         // Create the block with pruned transactions
         let mut block = Block::new();
